@@ -20,6 +20,7 @@ Brief(r) ==
           file |-> r.file, want_out |-> SetToSeq(CliExpected(r.opts, r.tiles))]
     ELSE IF r.ev = "clirecomp"
     THEN [ev |-> "clirecomp", id |-> r.id, src_tc |-> r.src_tc, target |-> r.target, force |-> r.force, fmt |-> r.fmt, exit |-> r.exit,
+          override |-> r.override,
           args |-> r.args, err |-> r.err, tiles |-> r.tiles, file |-> r.file]
     ELSE [ev |-> "recomp", id |-> r.id, src_tc |-> r.src_tc, target |-> r.target, force |-> r.force, fmt |-> r.fmt,
           declared |-> r.declared, tiles |-> r.tiles, lookups |-> r.lookups, walk |-> r.walk, file |-> r.file]
